@@ -71,6 +71,17 @@ pub struct Case {
     /// flag per signature (index into the twelve standard flags)
     pub flags: Vec<u8>,
     pub mutation: Option<Mutation>,
+    /// conditionals (constant conditions) with NOPs and code separators before or around the standard script
+    #[serde(default)]
+    pub wrap: Option<Wrap>,
+}
+
+#[derive(Clone, Debug, Serialize, Deserialize)]
+pub struct Wrap {
+    /// filler at the top level before the standard script
+    pub before: Vec<gs::Filler>,
+    /// the standard script sits inside the executed branch of one more conditional, after `inner`
+    pub around: Option<(bool, bool, Vec<gs::Filler>, Option<Vec<gs::Filler>>)>,
 }
 
 struct Spend {
@@ -85,13 +96,13 @@ fn hash160_of(key: &Key) -> Vec<u8> {
     hashes::hash160(&key.pub_bytes()).to_vec()
 }
 
-fn build_lock(c: &Case) -> Spend {
+fn build_lock(c: &Case, key_bytes: &[Vec<u8>]) -> Spend {
     let keys = &c.keys;
     let mut lock: Vec<El> = vec![];
     let mut signer_idx = vec![0usize];
     match c.kind % 3 {
         0 => {
-            lock.push(push_el(&keys[0].pub_bytes()));
+            lock.push(push_el(&key_bytes[0]));
             lock.push(El::Op(if c.verify_form { 173 } else { 172 }));
         }
         1 => {
@@ -107,8 +118,8 @@ fn build_lock(c: &Case) -> Spend {
                 signer_idx = vec![0];
             }
             lock.push(El::Op(80 + signer_idx.len() as u8));
-            for k in keys {
-                lock.push(push_el(&k.pub_bytes()));
+            for k in key_bytes {
+                lock.push(push_el(k));
             }
             lock.push(El::Op(80 + keys.len() as u8));
             lock.push(El::Op(if c.verify_form { 175 } else { 174 }));
@@ -123,10 +134,26 @@ fn build_lock(c: &Case) -> Spend {
     for (k, p) in pos.iter().enumerate() {
         lock.insert(p + k, El::Op(171));
     }
-    let check_at = lock.iter().position(|e| matches!(e, El::Op(172..=175))).unwrap();
-    let last_sep = lock[..check_at].iter().rposition(|e| *e == El::Op(171));
-    let subscript = gs::to_bytes(&lock[last_sep.map(|i| i + 1).unwrap_or(0)..]);
-    Spend { lock, check_at, subscript, signer_idx }
+    if let Some(w) = &c.wrap {
+        let family = lock;
+        lock = gs::filler_els(&w.before);
+        match &w.around {
+            None => lock.extend(family),
+            Some((cond, notif, inner, other)) => {
+                let mut taken = gs::filler_els(inner);
+                taken.extend(family);
+                let other = other.as_ref().map(|f| gs::filler_els(f));
+                lock.push(El::Op(if *cond { 0x51 } else { 0x00 }));
+                let code = if *notif { 100 } else { 99 };
+                lock.push(if *cond ^ *notif { El::If { code, pass: taken, fail: other } } else { El::If { code, pass: other.unwrap_or_default(), fail: Some(taken) } });
+            }
+        }
+    }
+    // the subscript starts after the last code separator executed before the CHECK opcode
+    let tokens = gs::to_tokens(&lock);
+    let (after_sep, check_at) = gs::executed_separator(&tokens, 172..=175);
+    let subscript = crate::refimpl::script_tok::encode(&tokens[after_sep..]);
+    Spend { lock, check_at: check_at.expect("the CHECK opcode is executed"), subscript, signer_idx }
 }
 
 /// reference CHECKSIG for one (signature, key) pair
@@ -180,12 +207,12 @@ impl Property for C15 {
     const ID: &'static str = "C15";
 
     fn rule() -> String {
-        "Spending transactions (1..4 inputs, 0..4 outputs, boundary-valued fields), any input index, any u64 declared value, 1..3 keys (both compression forms, boundary scalars); locking scripts P2PK, P2PKH and bare m-of-n multisig (1<=m<=n<=3), each also in the ...VERIFY OP_1 form, with OP_CODESEPARATOR inserted at random top-level positions; each signature's flag from the twelve standard bytes; the spend is built and signed through the library's own API (Transaction::sign, set_locking_script, set_satoshis, pushes for the unlocking script) and then optionally mutated in one field (version, locktime, an outpoint, a sequence, an output value/script, an added output, the declared value, a public key, r, s, the flag byte, signature order, a dropped signature, a foreign signer, a signature over the byte-reversed digest, a signature over the wrong subscript, one signer's signature used twice). Oracle: the reference predicts accept/reject by verifying every (signature, key) pair with the reference ECDSA over reference SHA-256d of the reference preimage (C03/C10 oracle) of the current transaction with the flag from the signature, the subscript after the last code separator before the CHECK opcode and the declared value, multisig by ordered matching; the library must accept (run Ok and true on top) exactly when the reference does. Non-trivial = a mutated spend, a flag other than ALL, a code separator, or m < n; distinct by hash of the serialised case.".into()
+        "Spending transactions (1..4 inputs, 0..4 outputs, boundary-valued fields), any input index, any u64 declared value, 1..3 keys (both compression forms, boundary scalars); locking scripts P2PK, P2PKH and bare m-of-n multisig (1<=m<=n<=3), each also in the ...VERIFY OP_1 form, with OP_CODESEPARATOR inserted at random positions, and (35 %) preceded by or placed inside conditionals on constant conditions whose branches hold NOPs, code separators and further conditionals (so the last executed separator may sit inside a taken branch, after a skipped one, or after a whole conditional, and the subscript may begin inside a conditional); each signature's flag from the twelve standard bytes; the spend is built and signed through the library's own API (Transaction::sign, set_locking_script, set_satoshis, pushes for the unlocking script) and then optionally mutated in one field (version, locktime, an outpoint, a sequence, an output value/script, an added output, the declared value, a public key, r, s, the flag byte, signature order, a dropped signature, a foreign signer, a signature over the byte-reversed digest, a signature over the wrong subscript, one signer's signature used twice). Oracle: the reference predicts accept/reject by verifying every (signature, key) pair with the reference ECDSA over reference SHA-256d of the reference preimage (C03/C10 oracle) of the current transaction with the flag from the signature, the subscript after the last code separator executed before the CHECK opcode (found by walking the written-out script with its known conditions) and the declared value, multisig by ordered matching; the library must accept (run Ok and true on top) exactly when the reference does. Non-trivial = a mutated spend, a flag other than ALL, a code separator, a conditional, or m < n; distinct by hash of the serialised case.".into()
     }
 
     fn assumptions() -> Vec<String> {
         vec![
-            "code separators are placed at the top level of the locking script (the library tracks them by element index)".into(),
+            "conditionals in the locking script test a constant pushed right before them, so the executed path is known without an interpreter".into(),
             "s is never replaced by n - s (whether high-S signatures verify is not in the statement)".into(),
             "a spend whose signing flag is SINGLE with no output at the input's index cannot be signed and is skipped (counted)".into(),
         ]
@@ -218,8 +245,9 @@ impl Property for C15 {
             any::<u16>().prop_map(Mutation::DuplicateSig),
             (any::<u16>(), 0u8..12).prop_map(|(w, f)| Mutation::SameSignerTwice(w, f)),
         ];
-        (txs, any::<u16>(), gen::u64_edge(), prop::collection::vec(keys::key(), 1..4), 0u8..3, 1u8..8, any::<bool>(), prop_oneof![2 => Just(vec![]), 3 => prop::collection::vec(any::<u16>(), 1..3)], prop::collection::vec(0u8..12, 3), prop::option::weighted(0.6, mutation))
-            .prop_map(|(tx, idx, value, keys, kind, signers, verify_form, codeseps, flags, mutation)| Case { tx, idx, value, keys, kind, signers, verify_form, codeseps, flags, mutation })
+        let wrap = (gs::filler(4), prop::option::weighted(0.5, (any::<bool>(), any::<bool>(), gs::filler(4), prop::option::of(gs::filler(3))))).prop_map(|(before, around)| Wrap { before, around });
+        (txs, any::<u16>(), gen::u64_edge(), prop::collection::vec(keys::key(), 1..4), 0u8..3, 1u8..8, any::<bool>(), prop_oneof![2 => Just(vec![]), 3 => prop::collection::vec(any::<u16>(), 1..3)], prop::collection::vec(0u8..12, 3), (prop::option::weighted(0.6, mutation), prop::option::weighted(0.35, wrap)))
+            .prop_map(|(tx, idx, value, keys, kind, signers, verify_form, codeseps, flags, (mutation, wrap))| Case { tx, idx, value, keys, kind, signers, verify_form, codeseps, flags, mutation, wrap })
             .boxed()
     }
 
@@ -238,7 +266,7 @@ impl Property for C15 {
                 r.ins[k].script = vec![];
             }
         }
-        let sp = build_lock(c);
+        let sp = build_lock(c, &c.keys.iter().map(|k| k.pub_bytes()).collect::<Vec<_>>());
         let lock_script = script_from_els(&sp.lock);
         let sub_script = lib_call("Script::from_bytes(subscript)", || Script::from_bytes(&sp.subscript))?.map_err(|e| failure("subscript_accepted", e.to_string(), "Ok"))?;
         let mut value = c.value;
@@ -400,20 +428,9 @@ impl Property for C15 {
         }
 
         // 3. assemble the spend through the API
-        let mut lock_els = sp.lock.clone();
-        if matches!(c.mutation, Some(Mutation::PubKey(..))) {
-            // rebuild the key pushes of the locking script with the mutated keys (P2PKH: the key is in the unlocking script)
-            let mut ki = 0;
-            for e in lock_els.iter_mut() {
-                if let El::Push(_, d) = e {
-                    let v = d.to_vec();
-                    if (v.len() == 33 || v.len() == 65) && ki < key_bytes.len() {
-                        *e = push_el(&key_bytes[ki]);
-                        ki += 1;
-                    }
-                }
-            }
-        }
+        // the locking script with the (possibly mutated) keys; P2PKH keeps the original hash, its key is in the unlocking script
+        let sp_final = build_lock(c, &key_bytes);
+        let lock_els = sp_final.lock.clone();
         let lock_final = if lock_els == sp.lock { lock_script.clone() } else { script_from_els(&lock_els) };
         let mut unlock: Vec<El> = vec![];
         match c.kind % 3 {
@@ -434,7 +451,7 @@ impl Property for C15 {
         // plain P2PKH spends are assembled through the address API (get_locking_script / get_unlocking_script)
         let mut unlock_script = script_from_els(&unlock);
         let mut lock_final = lock_final;
-        if c.kind % 3 == 1 && c.codeseps.is_empty() && !c.verify_form && !mutated {
+        if c.kind % 3 == 1 && c.codeseps.is_empty() && c.wrap.is_none() && !c.verify_form && !mutated {
             let pk = bsv::PublicKey::from_bytes(&key_bytes[0]).map_err(|e| failure("public_from_bytes", e.to_string(), "Ok"))?;
             let addr = pk.to_p2pkh_address().map_err(|e| failure("to_p2pkh_address", e.to_string(), "Ok"))?;
             let ls = lib_call("get_locking_script", || addr.get_locking_script())?.map_err(|e| failure("get_locking_script", e.to_string(), "Ok"))?;
@@ -457,10 +474,8 @@ impl Property for C15 {
         spend.set_input(idx, &txin);
 
         // 4. reference prediction on the final transaction (the unlocking script is not signed)
-        let sub_final: Vec<u8> = {
-            let last_sep = lock_els[..sp.check_at].iter().rposition(|e| *e == El::Op(171));
-            gs::to_bytes(&lock_els[last_sep.map(|i| i + 1).unwrap_or(0)..])
-        };
+        let sub_final: Vec<u8> = sp_final.subscript.clone();
+        let _ = sp.check_at;
         let predicted = match c.kind % 3 {
             0 => ref_checksig(&r, idx, &sigs[0], &key_bytes[0], &sub_final, value),
             1 => hashes::hash160(&key_bytes[0]).to_vec() == hash160_of(&c.keys[0]) && ref_checksig(&r, idx, &sigs[0], &key_bytes[0], &sub_final, value),
@@ -491,6 +506,24 @@ impl Property for C15 {
         o.nt_if(mutated, "mutated");
         o.nt_if(sigs.iter().any(|s| s.last() != Some(&0x01)), "flag!=ALL");
         o.nt_if(!c.codeseps.is_empty(), "codeseparator");
+        o.nt_if(c.wrap.is_some(), "conditional-in-locking-script");
+        if let Some(w) = &c.wrap {
+            o.label_if(w.around.is_some(), "check-inside-conditional");
+            let toks = gs::to_tokens(&sp_final.lock);
+            let (after, at) = gs::executed_separator(&toks, 172..=175);
+            // the subscript begins inside a conditional when some block is open at that point
+            let mut open = 0i32;
+            for t in &toks[..after] {
+                match t {
+                    crate::refimpl::script_tok::Tok::Op(99 | 100) => open += 1,
+                    crate::refimpl::script_tok::Tok::Op(104) => open -= 1,
+                    _ => {}
+                }
+            }
+            o.label_if(after > 0 && open > 0, "subscript-starts-inside-conditional");
+            o.label_if(after > 0 && toks[..after].iter().any(|t| matches!(t, crate::refimpl::script_tok::Tok::Op(104))), "separator-after-a-conditional");
+            let _ = at;
+        }
         o.nt_if(c.kind % 3 == 2 && sp.signer_idx.len() < c.keys.len(), "m<n");
         o.label(match c.kind % 3 {
             0 => "p2pk",
